@@ -302,6 +302,10 @@ mod nat_ty {
     pub struct Flag(pub bool);
     #[derive(CandidType, Deserialize, Debug, PartialEq, Clone)]
     pub struct Wrap2(pub Millis);
+    #[derive(CandidType, Deserialize, Debug, PartialEq, Eq, PartialOrd, Ord, Clone)]
+    pub struct Key(pub String);
+    #[derive(CandidType, Deserialize, Debug, PartialEq, Clone)]
+    pub struct WrapNat(pub Nat);
 }
 
 fn native_case(k: usize, hexmsg: &str) -> String {
@@ -357,6 +361,14 @@ fn native_case(k: usize, hexmsg: &str) -> String {
         42 => one!(Vec<Flag>),
         43 => one!([Millis; 2]),
         44 => one!(Vec<Wrap2>),
+        45 => one!(Vec<std::cmp::Reverse<u32>>),
+        46 => one!(Vec<std::cell::Cell<u8>>),
+        47 => one!(Vec<Box<u64>>),
+        48 => one!(Vec<usize>),
+        49 => one!(Vec<u128>),
+        50 => one!(BTreeMap<Key, u8>),
+        51 => one!(Vec<WrapNat>),
+        52 => one!(Vec<(u8,)>),
         _ => "bad".to_string(),
     }
 }
